@@ -903,7 +903,15 @@ class C21(HistCheck):
                 bump(res, 'judged:core-names')
                 for n in e if isinstance(e, list) else []:
                     if isinstance(n, str) and n not in live:
-                        res['violations'].append({'cls': 'dead-name-printed', 'sig': {'where': 'get-unsat-core', 'global': gd, 'alias': alias_feature(self, ctx, case, i)}, 'detail': {'index': i, 'name': n, 'live': sorted(live)}})
+                        # with :global-declarations names persist across pops (C21 says so): a persisting name that denotes the
+                        # formula of a current named assertion (same formula asserted again under a new name) is not a popped
+                        # name showing up, so C21 does not forbid it
+                        other = snaps[i]['names'].get(n)
+                        if gd and other and any(a['name'] and a['ref'] == other['ref'] for a in snaps[i]['asserts']):
+                            bump(res, 'global-persisting-name-in-core')
+                            continue
+                        res['violations'].append({'cls': 'dead-name-printed', 'sig': {'where': 'get-unsat-core', 'global': gd, 'alias': alias_feature(self, ctx, case, i)},
+                                                  'detail': {'index': i, 'name': n, 'live': sorted(live)}})
                         return res
             elif c['k'] == 'get-assignment' and last_answer == 'sat' and not has_error(o):
                 try:
